@@ -1272,7 +1272,11 @@ func (fr *Frame) slice(i *ssa.Slice, st *State, reach Term) *State {
 			nc = sub(mx, lo)
 		}
 		// Go: slicing a nil slice yields nil; ref stays 0
-		fr.vals[i] = Val{K: KSlice, T: i.Type(), A: x.A, Off: ite(eq(x.A, "0"), "0", add(x.Off, lo)), Len: sub(hi, lo), Cap: nc}
+		noff := ite(eq(x.A, "0"), "0", add(x.Off, lo))
+		if fr.v.knownNonNil[x.A] {
+			noff = add(x.Off, lo)
+		}
+		fr.vals[i] = Val{K: KSlice, T: i.Type(), A: x.A, Off: noff, Len: sub(hi, lo), Cap: nc}
 		return st
 	case KArr:
 		at := x.T.Underlying().(*types.Pointer).Elem().Underlying().(*types.Array)
